@@ -22,8 +22,18 @@ Proof.
   assert (Hz : z0 ex_dkz = 2 * PI * 1000) by reflexivity.
   assert (Hg : 2 * PI / z0 ex_dkz = 1 / 1000) by (rewrite Hz; field; lra).
   destruct (collinear_exact ex_dkz o sd (1 / 100)) as [H _].
-  - intros x _. reflexivity.
+  - intros x _ _. reflexivity.
   - rewrite Hz. nra.
   - rewrite Hg, Rabs_right by lra. lra.
   - rewrite Hg in H. exact H.
+Qed.
+
+(* the hypotheses of the collinear mismatch formula are satisfiable: constant index 3/2, wavelengths 2 and 1, negative sign *)
+From SpdVerif Require Import Base.Vec3 Proofs.C03_idler.
+Lemma nonvacuous_collinear :
+  let index := fun (_ : R) (_ : vec) (_ : polarization) => 3 / 2 in
+  w_z index Ordinary Ordinary 0 0 2 1 (1, 1) (1, 1) PPOff <> 0 /\ w_z index Ordinary Ordinary 0 0 2 1 (1, 1) (1, 1) (PPOn 1 false) <> 0.
+Proof.
+  intros index. unfold w_z, n_p, n_s, kpp, refractive_index, index, pp_k_pp, idler_k_pp, pp_signed_period_on, sign_mul.
+  rewrite cos_0. split; [lra|]. replace (2 / (1 * -1)) with (-2) by (field; lra). lra.
 Qed.
